@@ -17,6 +17,7 @@ from ..norm import Norm, expected
 from ..poly import Poly
 from ..paths import walk_no_nested, must_on_all_paths
 from ..effects import is_call_to, writes_in
+from ..loops import elementwise_text
 from .c13 import _is_invalidate
 
 LEVEL = "other"
@@ -158,10 +159,16 @@ def r12_3(ctx):
     sc = ctx.scope(f)
     apps = [c for c in walk_no_nested(f.node) if is_call_to(c, "append", "subst_to")]
     table = {}
+    def flat(v, gs):
+        # canonical form of an if/elif chain of appends is one append of a nested conditional expression
+        if isinstance(v, ast.IfExp):
+            flat(v.body, gs + [(ast.unparse(v.test), True)])
+            flat(v.orelse, gs + [(ast.unparse(v.test), False)])
+        else:
+            pos = [g for g, p in gs if p]
+            table[pos[-1] if pos else "else"] = ast.unparse(v)
     for a in apps:
-        gs = [(ast.unparse(t), p) for t, p in sc.guards(a)]
-        pos = [g for g, p in gs if p]
-        table[pos[-1] if pos else "else"] = ast.unparse(a.args[0])
+        flat(a.args[0], [(ast.unparse(t), p) for t, p in sc.guards(a)])
     loopv = None
     for l in walk_no_nested(f.node):
         if isinstance(l, ast.For) and ast.unparse(l.iter) == "self._placeholders.keys()" and any(a in list(ast.walk(l)) for a in apps):
@@ -174,7 +181,8 @@ def r12_3(ctx):
     ok = len(sf) == 1 and ast.unparse(sf[0].value) == "list(self._placeholders.keys())"
     ctx.check(ok, "clone substitutes every placeholder of the template", detail="substitution source", expected="subst_from = list(self._placeholders.keys())", found=ast.unparse(sf[0].value) if sf else None, fi=f)
     reg = [st for st in walk_no_nested(f.node) if isinstance(st, ast.Assign) and isinstance(st.targets[0], ast.Subscript) and ast.unparse(st.targets[0].value) == "ret._placeholders"]
-    ok = len(reg) == 1 and ast.unparse(reg[0].value).startswith("self._placeholders[") and sc.enclosing_loops(reg[0]) and "zip(subst_from, subst_to)" in ast.unparse(sc.enclosing_loops(reg[0])[-1][1])
+    ew = elementwise_text(sc, reg[0]) if len(reg) == 1 else None
+    ok = ew is not None and ew[0] == "ret._placeholders[subst_to[@]] = self._placeholders[subst_from[@]]" and set(ew[1]) & {"subst_from", "subst_to"}
     ctx.check(ok, "clone registers every renewed placeholder with the template's definition", detail="placeholder registration", expected="for old,new in zip(subst_from, subst_to): ret._placeholders[new] = self._placeholders[old]", found="", fi=f)
     subs = [c for c in walk_no_nested(f.node) if is_call_to(c, "substitute") and len(c.args) == 3]
     ok = len(subs) == 1 and [ast.unparse(a) for a in subs[0].args] == ["orig", "subst_from", "subst_to"]
@@ -191,7 +199,10 @@ def r12_3(ctx):
         elif isinstance(st, ast.Assign) and ast.unparse(st.targets[0]) == "n_constr" and ast.unparse(st.value) == "len(orig)":
             events.append((sc.order[st], "len"))
         elif isinstance(st, ast.Call) and isinstance(st.func, ast.Attribute) and ast.unparse(st.func.value) == "orig" and st.func.attr in ("extend", "append") and st.args:
-            t = ast.unparse(st.args[0])
+            a0 = st.args[0]
+            if is_call_to(a0, "list") and len(a0.args) == 1:
+                a0 = a0.args[0]
+            t = ast.unparse(a0)
             events.append((sc.order[st], "constraints" if "_constraints" in t else "objective" if t == "self._objective" else "initial" if t == "self._initial.keys()" else "other:" + t))
     seq = [e for _, e in sorted(events)]
     dedup = [e for i, e in enumerate(seq) if i == 0 or e != seq[i - 1]]
